@@ -44,8 +44,9 @@ class SymTab:
             return Fraction(v)
         return self.term(v, kind)
 
-    def positivity(self, strict_kinds=("x", "k", "D", "sfc", "dst", "dt", "V")):
-        return [s > 0 for v, s in self.by_val.items()]
+    def positivity(self, nonneg_kinds=("x",)):
+        """state entries >= 0, every other symbolic quantity > 0 (zeros are the concrete zeros of the catalogue)"""
+        return [(s >= 0) if self.kinds.get(v) in nonneg_kinds else (s > 0) for v, s in self.by_val.items()]
 
     def model_values(self, m):
         from .cxx.engine import model_value
@@ -54,8 +55,8 @@ class SymTab:
 
 def grid_neighbor(space, i, direction):
     """Specification of the neighbour of cell i in direction 0..5 (+x,-x,+y,-y,+z,-z): the adjacent
-    cell, wrapping on periodic axes; None at a reflecting border. (A periodic axis of length 1
-    wraps a cell onto itself: returned as i, callers decide what a self-neighbour means.)"""
+    cell, wrapping on periodic axes; None at a reflecting border. The relation is between DISTINCT
+    cells: on a periodic axis of length 1 a cell has no neighbour along that axis."""
     w, h, d = space.w, space.h, space.d
     bc = space.get_boundary_conditions()
     x, y, z = i % w, (i // w) % h, i // (w * h)
@@ -64,7 +65,7 @@ def grid_neighbor(space, i, direction):
     c[axis] += 1 if direction % 2 == 0 else -1
     L = (w, h, d)[axis]
     if not (0 <= c[axis] < L):
-        if bc["xyz"[axis]] == "periodical":
+        if bc["xyz"[axis]] == "periodical" and L > 1:
             c[axis] %= L
         else:
             return None
@@ -84,7 +85,7 @@ def contacts(system):
             for n in range(6):
                 j = grid_neighbor(space, i, n)
                 if j is not None:
-                    lst.append((j, None, None, V, V))
+                    lst.append((j, None, None, V, V, n))
             out.append(lst)
     else:
         vols = [nd.volume.value for nd in space.nodes]
@@ -92,9 +93,9 @@ def contacts(system):
             lst = []
             for e in space.edges:
                 if e.i == i:
-                    lst.append((e.j, e.surface.value, e.distance.value, vols[i], vols[e.j]))
+                    lst.append((e.j, e.surface.value, e.distance.value, vols[i], vols[e.j], len(lst)))
                 if e.j == i:
-                    lst.append((e.i, e.surface.value, e.distance.value, vols[i], vols[e.i]))
+                    lst.append((e.i, e.surface.value, e.distance.value, vols[i], vols[e.i], len(lst)))
             out.append(lst)
     return out
 
@@ -152,7 +153,7 @@ def rate_law(system, st, X, with_chemostats=True):
             d = reac[s]
             sp = net.species[s]
             Di = st.term(_val_in_env(sp.D, e, 0), "D")
-            for (j, sfc, dst, Vi, Vj) in cont[i]:
+            for (j, sfc, dst, Vi, Vj, _slot) in cont[i]:
                 Dj = st.term(_val_in_env(sp.D, envs[cell_env[j]], 0), "D")
                 hi, hj = _cbrt_exact(Vi), _cbrt_exact(Vj)
                 hiz, hjz = z3.Q(hi.numerator, hi.denominator), z3.Q(hj.numerator, hj.denominator)
@@ -168,6 +169,116 @@ def rate_law(system, st, X, with_chemostats=True):
                 d = d + kji * X(s, j) - kij * X(s, i)
             out[(s, i)] = d
     return out
+
+
+def _q(v):
+    f = Fraction(v)
+    return z3.Q(f.numerator, f.denominator)
+
+
+def diffusion_constant(system, st, s, i, contact):
+    """first-order constant k_ij of species s leaving cell i through `contact` (Bernstein)."""
+    net, space = system.network, system.space
+    envs = net.environments
+    cell_env = [int(e) for e in space.get_cell_env_array()]
+    (j, sfc, dst, Vi, Vj, _slot) = contact
+    sp = net.species[s]
+    Di = st.term(_val_in_env(sp.D, envs[cell_env[i]], 0), "D")
+    Dj = st.term(_val_in_env(sp.D, envs[cell_env[j]], 0), "D")
+    hi, hj = _q(_cbrt_exact(Vi)), _q(_cbrt_exact(Vj))
+    if sfc is None:
+        S, dist = hi * hi, hi
+    else:
+        S, dist = st.term(sfc, "sfc"), st.term(dst, "dst")
+    Dij = z3.If(z3.And(Di != 0, Dj != 0), (hi + hj) / (hi / Di + hj / Dj), z3.RealVal(0))
+    return Dij * S / (dist * _q(Vi))
+
+
+def propensities(system, st, X):
+    """Master-equation propensities per channel, in the documented channel classes:
+    react[(i, q, 'f'|'r')] = c * prod_s x(x-1)...(x-a+1) (0 unless every reactant count suffices),
+       c = k_env(i) * V_i^(1-order);   diff[(i, s, slot)] = k_ij * x_is.
+    Also returns per channel the state change vector {(s, cell): delta}."""
+    net, space = system.network, system.space
+    labels = net.species_labels()
+    ns, nc = len(labels), space.size()
+    envs = net.environments
+    cell_env = [int(e) for e in space.get_cell_env_array()]
+    vols = [float(v) for v in space.get_cell_vol_array().value]
+    cont = contacts(system)
+    react, diff, change, suff = {}, {}, {}, {}
+    for i in range(nc):
+        e = envs[cell_env[i]]
+        V = _q(vols[i])
+        for q, r in enumerate(net.reactions):
+            for tag, kval, lhs, rhs in (("f", r.kf, r.substrates, r.products), ("r", r.kr, r.products, r.substrates)):
+                k = st.term(_val_in_env(kval, e, 0), "k")
+                order = sum(int(v) for v in lhs.values())
+                c = k
+                for _ in range(abs(1 - order)):
+                    c = c * V if order < 1 else c / V
+                a = c
+                enough = []
+                for s, lab in enumerate(labels):
+                    m = int(lhs.get(lab, 0))
+                    for qq in range(m):
+                        a = a * (X(s, i) - qq)
+                    if m:
+                        enough.append(X(s, i) >= m)
+                cond = z3.And(*enough) if enough else z3.BoolVal(True)
+                react[(i, q, tag)] = z3.If(cond, a, z3.RealVal(0))
+                suff[(i, q, tag)] = (cond, k)
+                change[("R", i, q, tag)] = {(s, i): int(rhs.get(lab, 0)) - int(lhs.get(lab, 0)) for s, lab in enumerate(labels)
+                                            if int(rhs.get(lab, 0)) - int(lhs.get(lab, 0))}
+        for s in range(ns):
+            for contact in cont[i]:
+                j, slot = contact[0], contact[5]
+                kij = diffusion_constant(system, st, s, i, contact)
+                diff[(i, s, slot)] = (kij * X(s, i), kij, j)
+                ch = {}
+                ch[(s, i)] = ch.get((s, i), 0) - 1
+                ch[(s, j)] = ch.get((s, j), 0) + 1
+                change[("D", i, s, slot)] = ch
+    return react, diff, change, suff
+
+
+def left_null_basis(system, zero_species=()):
+    """Integer basis of {c : c . nu_r = 0 for every reaction r, c_s = 0 for s in zero_species}
+    (exact fraction elimination)."""
+    net = system.network
+    labels = net.species_labels()
+    n = len(labels)
+    rows = [[Fraction(int(r.products.get(l, 0)) - int(r.substrates.get(l, 0))) for l in labels] for r in net.reactions]
+    for z in zero_species:
+        rows.append([Fraction(1 if k == z else 0) for k in range(n)])
+    # solve rows * c = 0
+    piv = []
+    m = [r[:] for r in rows]
+    rk = 0
+    for col in range(n):
+        p = next((k for k in range(rk, len(m)) if m[k][col] != 0), None)
+        if p is None:
+            continue
+        m[rk], m[p] = m[p], m[rk]
+        m[rk] = [v / m[rk][col] for v in m[rk]]
+        for k in range(len(m)):
+            if k != rk and m[k][col] != 0:
+                f = m[k][col]
+                m[k] = [a - f * b for a, b in zip(m[k], m[rk])]
+        piv.append(col)
+        rk += 1
+    free = [c for c in range(n) if c not in piv]
+    basis = []
+    for f in free:
+        v = [Fraction(0)] * n
+        v[f] = Fraction(1)
+        for k, pc in enumerate(piv):
+            v[pc] = -m[k][f]
+        den = 1
+        for x in v:
+            den = den * x.denominator // __import__("math").gcd(den, x.denominator)
+        basis.append([int(x * den) for x in v])
+    return labels, basis
 
 
 def conservation_basis(system):
